@@ -212,7 +212,7 @@ func enumTypeRef(node *sourcewalk.EnumNode) *TypeRef {
 	}
 	valMap := make(map[string]int32)
 	options := node.Schema.Options
-	if len(options) > 0 && options[0].Number == 0 && strings.HasSuffix(options[0].Name, "UNSPECIFIED") {
+	if len(options) > 0 && isExplicitZero(prefix, options[0]) {
 		valMap[enumValueName(prefix, options[0].Name)] = 0
 		options = options[1:]
 	}
